@@ -21,6 +21,16 @@ Theorem C27_output_lines : forall (i : dinfo) (df : bytes) (lines : list bytes) 
 Proof. exact output_lines. Qed.
 Print Assumptions C27_output_lines.
 
+(* and it is allowlisted AS WRITTEN: every line of the sanitized file — after the Exec/Icon rewriting and after the ${SNAP}
+   substitution — is accepted by the allowlist expression of isValidDesktopFileLine (blank, comment, one of the three
+   group headers, one of the allowlisted keys incl. the localized forms), or is the inserted X-SnapInstanceName line.
+   Hypotheses: only that the strings are byte strings (every element <= 255), which holds for anything read from a file. *)
+Theorem C27_output_lines_allowlisted : forall (i : dinfo) (df : bytes) (lines : list bytes) (l : bytes),
+  info_ok i = true -> bytes_ok df = true -> Forall (fun x => bytes_ok x = true) lines ->
+  In l (sanitize_lines i df lines) -> valid_line l = true \/ l = xsnap_line i.
+Proof. exact output_lines_allowlisted. Qed.
+Print Assumptions C27_output_lines_allowlisted.
+
 (* every Exec= line the loop body lets through is  Exec=env BAMF_DESKTOP_FILE_HINT=<df> <wrapper of one of the snap's apps>
    followed by nothing or by a space and arguments *)
 Theorem C27_exec_form : forall (i : dinfo) (df line b : bytes),
@@ -87,6 +97,6 @@ Print Assumptions C27_allowlist_pinned.
 
 (* non-vacuity: the guards of C27_exec_launches_wrapper hold for an ordinary snap, and an ordinary file is tagged *)
 Example C27_example :
-  mount_ok (d_mount bad_info) = true /\ forallb plain (wrapper bad_info (hd [] (d_apps bad_info))) = true /\
+  info_ok bad_info = true /\ mount_ok (d_mount bad_info) = true /\ forallb plain (wrapper bad_info (hd [] (d_apps bad_info))) = true /\
   sanitize_lines bad_info [47; 120; 46; 100] [lit_desktop_entry] = [lit_desktop_entry; xsnap_line bad_info].
 Proof. vm_compute. repeat split; reflexivity. Qed.
